@@ -16,6 +16,9 @@ import (
 	"testing"
 	"time"
 
+	"github.com/bronlabs/bron-crypto/pkg/mpc/sharing/accessstructures"
+	"github.com/bronlabs/bron-crypto/pkg/mpc/sharing/accessstructures/cnf"
+
 	"verifmc/engine"
 	"verifmc/proto"
 	"verifmc/schednet"
@@ -285,6 +288,15 @@ func faultBody(c *proto.Case, deviators []proto.ID) func(*engine.X) {
 	}
 }
 
+// nonIdealCNF: maximal unqualified sets {1,2},{3,4},{5} on {1..5}: several holders own more than one MSP row.
+func nonIdealCNF() accessstructures.Monotone {
+	ac, err := cnf.NewCNFAccessStructure(proto.Set(1, 2), proto.Set(3, 4), proto.Set(5))
+	if err != nil {
+		panic(err)
+	}
+	return ac
+}
+
 func firstLine(err error) string {
 	if err == nil {
 		return ""
@@ -336,6 +348,7 @@ func TestCheck(t *testing.T) {
 		{proto.CanettiCase("T23", ac, ids), ids},
 		{proto.RedistributeCase("refresh-T23", ac, ids, ac, 0), ids},
 		{proto.RedistributeCase("refresh-T23-anchor1", ac, ids, ac, 1), []proto.ID{2, 3}},
+		{proto.RedistributeCase("T23-to-nonideal-cnf-anchor1", ac, ids, nonIdealCNF(), 1), []proto.ID{2, 3}},
 		{proto.Lindell22Case("T23-q12", ac, []proto.ID{1, 2}, []byte("m")), []proto.ID{1, 2}},
 		{proto.Lindell22Case("T23-q123", ac, ids, []byte("m")), ids},
 	}
@@ -345,6 +358,62 @@ func TestCheck(t *testing.T) {
 			continue
 		}
 		engine.Explore(faultBody(c.c, c.devs), engine.Opts{Name: c.c.Name, Serial: true, Procs: 16, CrashTrace: true, Engine: "SCHED", MaxFails: 100000, Budget: engine.Budget(3*time.Minute, 30*time.Minute)})
+	}
+	// coordinated deviation: one previous holder redistributes a shard of ANOTHER key (all its messages consistent)
+	if only == "" || strings.Contains("foreign-shard", only) {
+		type fc struct {
+			name   string
+			next   accessstructures.Monotone
+			anchor proto.ID
+		}
+		targets := []fc{
+			{"to-disjoint-T23{4,5,6}-no-anchor", proto.Threshold(2, 4, 5, 6), 0},
+			{"to-T34{1,2,3,4}-no-anchor", proto.Threshold(3, 1, 2, 3, 4), 0},
+			{"to-disjoint-T23{4,5,6}-anchor1", proto.Threshold(2, 4, 5, 6), 1},
+			{"refresh-T23-no-anchor", ac, 0},
+		}
+		engine.Explore(func(x *engine.X) {
+			tg := targets[x.Choose("target", len(targets))]
+			devs := ids
+			if tg.anchor != 0 {
+				devs = []proto.ID{2, 3}
+			}
+			d := devs[x.Choose("deviator", len(devs))]
+			c := proto.RedistributeForeignShardCase(tg.name, ac, ids, tg.next, tg.anchor, d)
+			e := c.Run(x, schednet.New(c.IDs...), engine.Seed())
+			if e.Info.HarnessErr != "" {
+				panic(engine.HarnessError{Msg: e.Info.HarnessErr})
+			}
+			what := fmt.Sprintf("redistribute %s: previous holder %d takes part with a shard of another key", tg.name, d)
+			if e.Info.Deadlock != "" {
+				x.Failf("hang/redistribute|foreign-shard", "%s: threads stayed blocked: %s", what, e.Info.Deadlock)
+			}
+			detected := false
+			for _, id := range c.IDs {
+				if id == d {
+					continue
+				}
+				p := e.Parties[id]
+				if p.Panic != "" {
+					x.Failf("panic/redistribute|foreign-shard", "%s: honest party %d panicked: %s", what, id, p.Panic)
+				}
+				if p.OK && p.Bad != "" {
+					x.Failf("bad-output/redistribute|foreign-shard", "%s: honest party %d returned a bad output: %s", what, id, p.Bad)
+				}
+				for _, b := range p.Blamed {
+					if b != d {
+						x.Failf("wrong-blame/redistribute|foreign-shard", "%s: honest party %d blames %d", what, id, b)
+					}
+				}
+				if p.Err != nil && !p.Starved {
+					detected = true
+				}
+			}
+			if !detected {
+				x.Failf("undetected/redistribute|foreign-shard", "%s: nobody rejected; outcomes: %s", what, outcomes(e, c.IDs))
+			}
+			x.Observe(tg.name, d, outcomes(e, c.IDs))
+		}, engine.Opts{Name: "redistribute/foreign-shard", Serial: true, Procs: 12, CrashTrace: true, Engine: "SCHED", Budget: engine.Budget(2*time.Minute, 10*time.Minute)})
 	}
 	if len(undet) > 0 {
 		keys := make([]string, 0, len(undet))
